@@ -228,3 +228,22 @@ contract(TH + 'read_thermdat', P, label='format=unknown', options=OPT,
          requires=[r.replace('nasa_specie', 'species[0]') for r in TREQ] +
                   ['all(v >= 0 for v in species[0].a_low) and all(v >= 0 for v in species[0].a_high)'],
          raises={'ValueError': 'True'}, cross_check=False)
+
+# ---- a species that went through its JSON form first (to_dict / from_dict, or the encoder and json_to_pmutt) is written the same --
+def built(elements):
+    return New(NASA, name=Const('C6H12'), phase=Const('G'), elements=DictOf({k: Const(v) for k, v in elements.items()}),
+               T_low=Const(200.), T_high=Const(3500.), T_mid=Const(975.5),
+               a_low=RealVec(7, -1e3, 1e3), a_high=RealVec(7, -1e3, 1e3))
+
+
+for label, comp in (('C6H12', {'C': 6, 'H': 12}), ('C10H22', {'C': 10, 'H': 22}), ('PtO2', {'Pt': 1, 'O': 2})):
+    lemma('species-reloaded-from-its-dictionary-is-written-identically[%s]' % label, P,
+          forall=dict(s=built(comp)), given=[],
+          prove=[('record-1-identical',
+                  'pm.io.thermdat._write_line1(pm.empirical.nasa.Nasa.from_dict(s.to_dict()), write_date=False)'
+                  ' == pm.io.thermdat._write_line1(s, write_date=False)'),
+                 ('composition-identical-also-in-type',
+                  'all(type(v) is int for v in pm.empirical.nasa.Nasa.from_dict(s.to_dict()).elements.values())'),
+                 ('reads-back-composition',
+                  "pm.io.thermdat._read_line1(pm.io.thermdat._write_line1(pm.empirical.nasa.Nasa.from_dict(s.to_dict()), write_date=False))"
+                  "['elements'] == %r" % comp)])
